@@ -266,6 +266,106 @@ class Manufactured:
         return float(np.linalg.norm(self.A, 2) + abs(self.eps) * 1.3 * np.linalg.norm(self.B, 2))
 
 
+class Scaled:
+    """u = S*y for a manufactured problem: same dynamics, solution magnitude S (makes atol and rtol*|y| distinguishable)."""
+
+    def __init__(self, base, S):
+        self.base, self.S = base, float(S)
+        self.dim, self.shape, self.A = base.dim, base.shape, base.A
+
+    def rhs(self, t, u, **kw):
+        u = np.asarray(u)
+        return u.dtype.type(self.S) * self.base.rhs(t, u / u.dtype.type(self.S))
+
+    def jac(self, t, u, **kw):
+        u = np.asarray(u)
+        return self.base.jac(t, u / u.dtype.type(self.S))
+
+    def ystar(self, t, dtype=np.longdouble):
+        return self.S * self.base.ystar(t, dtype=dtype)
+
+    def dystar(self, t, dtype=np.longdouble):
+        return self.S * self.base.dystar(t, dtype=dtype)
+
+    def lipschitz(self):
+        return self.base.lipschitz()
+
+    def d4ystar_max(self):
+        return self.S * self.base.d4ystar_max()
+
+
+class LateBump:
+    """adds a pure-quadrature component u_b' = a*exp(-((t-tc)/w)^2): quiet for most of the span, a sharp feature near the end
+    (the closing step of a run gets rejected and retried); exact through erf."""
+
+    def __init__(self, base, t0, tf, amp=3.0, where=1.0, width=0.04):
+        self.base = base
+        self.t0, self.tf = float(t0), float(tf)
+        self.tc = self.t0 + where * (self.tf - self.t0)
+        self.w = width * abs(self.tf - self.t0)
+        self.amp = amp
+        self.dim = base.dim + 1
+        self.shape = (self.dim,)
+        self.A = base.A
+
+    def rhs(self, t, u, **kw):
+        u = np.asarray(u)
+        out = np.empty_like(u)
+        out[:-1] = self.base.rhs(t, u[:-1])
+        out[-1] = u.dtype.type(self.amp) * np.exp(-((np.asarray(t, dtype=u.dtype) - u.dtype.type(self.tc)) / u.dtype.type(self.w)) ** 2)
+        return out
+
+    def jac(self, t, u, **kw):
+        u = np.asarray(u)
+        J = np.zeros((self.dim, self.dim), dtype=u.dtype)
+        J[:-1, :-1] = self.base.jac(t, u[:-1])
+        return J
+
+    def _bump(self, t):
+        from scipy.special import erf
+        return self.amp * self.w * np.sqrt(np.pi) / 2.0 * (erf((float(t) - self.tc) / self.w) - erf((self.t0 - self.tc) / self.w))
+
+    def ystar(self, t, dtype=np.longdouble):
+        out = np.empty(self.dim, dtype=dtype)
+        out[:-1] = self.base.ystar(t, dtype=dtype)
+        out[-1] = 1.0 + self._bump(t)
+        return out
+
+    def lipschitz(self):
+        return self.base.lipschitz()
+
+
+class QuietBump:
+    """pure quadrature y_i' = a_i*exp(-((t-tc_i)/w_i)^2): the right-hand side is ~0 until shortly before the end of the span, so the
+    controller grows the step until the CLOSING step (clipped to the remaining span) runs into the feature and is rejected."""
+
+    def __init__(self, dim, seed, t0, tf):
+        rng = rng_for(7004, dim, seed)
+        self.dim, self.shape = dim, (dim,)
+        self.t0, self.tf = float(t0), float(tf)
+        L = self.tf - self.t0
+        self.tc = self.t0 + rng.uniform(1.0, 1.03, dim) * L
+        self.w = rng.uniform(0.01, 0.02, dim) * abs(L)
+        self.a = rng.uniform(0.5, 2.0, dim) * rng.choice([-1, 1], dim)
+        self.A = np.zeros((dim, dim))
+
+    def rhs(self, t, y, **kw):
+        y = np.asarray(y)
+        t = np.asarray(t, dtype=y.dtype)
+        return (self.a.astype(y.dtype) * np.exp(-((t - self.tc.astype(y.dtype)) / self.w.astype(y.dtype)) ** 2)).reshape(y.shape)
+
+    def jac(self, t, y, **kw):
+        return np.zeros((self.dim, self.dim), dtype=np.asarray(y).dtype)
+
+    def ystar(self, t, dtype=np.longdouble):
+        from scipy.special import erf
+        v = 1.0 + self.a * self.w * np.sqrt(np.pi) / 2.0 * (erf((float(t) - self.tc) / self.w) - erf((self.t0 - self.tc) / self.w))
+        return np.asarray(v, dtype=dtype)
+
+    def lipschitz(self):
+        return 0.0
+
+
 class Clocked:
     """Wraps a problem with an extra last component y_c' = 1 (time/state pairing made unambiguous)."""
 
